@@ -6,7 +6,14 @@ Lemmas.Inv — helper lemmas for property C01 (the representation invariant `Two
     non-finite operands included;
  3. 2Sum without a magnitude proviso: `new_add` / `new_sub` of ANY finite operands are exact as soon as the low word
     comes out finite (otherwise the low word is `inf`/`NaN`);
- 4. the half-ulp bound of a valid pair and the Fast2Sum precondition of DWPlusFP (`|v| ≤ |sh|`).
+ 4. the half-ulp bound of a valid pair and the Fast2Sum precondition of DWPlusFP (`dwplusfp_pre`: `|v| ≤ |sh|`);
+ 5. `dw_add_core_inv`, `dw_sub_core_inv`, `dw_rsub_core_inv`: TwoFloat ± f64, f64 − TwoFloat;
+ 6. non-finite operands of `mul`, `div`, `fma`;
+ 7. DWTimesFP (`dwtimesfp_nat`, `dw_mul_core_inv`): TwoFloat × f64 by magnitudes only, underflow included;
+ 8. DWTimesDW (`dwtimesdw_nat`, `dw_mul_tt_core_inv`): TwoFloat × TwoFloat;
+ 9. AccurateDWPlusDW (`dwplusdw_pre`, `dw_tail_inv`, `dw_add_tt_core_inv`, `dw_sub_tt_core_inv`): TwoFloat ± TwoFloat;
+10. DWDivFP with a normal quotient (`dwdivfp_int`, `dw_div_core_inv`);
+11. 2Prod up to the overflow threshold (`new_mul_words_of_hi_finite`).
 -/
 import TFV.Lemmas.EFT
 import TFV.Lemmas.Fraction
@@ -269,5 +276,1113 @@ theorem new_sub_lo_not_finite {a b : F64} (h : (TwoFloat.new_sub a b).hi.is_fini
   rw [new_sub_eq] at h ⊢
   simp only at h ⊢
   exact sub_not_finite_left _ (sub_not_finite_right _ (add_not_finite_left _ h))
+
+end F64
+
+/-! ## 4. the half-ulp bound of a valid pair and the Fast2Sum precondition of DWPlusFP -/
+
+namespace F64
+
+open TwoFloat
+
+theorem log2_le_log2_rn53 (n : Nat) : Nat.log2 n ≤ Nat.log2 (rn53 n) := by
+  rcases Nat.eq_zero_or_pos n with rfl | hn
+  · simp
+  · have h1 : 2 ^ Nat.log2 n ≤ n := Nat.log2_self_le (by omega)
+    have h2 := pow_le_rn53 h1
+    have h3 : rn53 n ≠ 0 := by have := rn53_pos hn; omega
+    exact (Nat.le_log2 h3).2 h2
+
+/-- **half-ulp bound**: the low word of a valid pair is at most half an ulp of the high word -/
+theorem _root_.TwoFloat.Valid.two_mul_abs_lo_le {t : TwoFloat} (h : t.Valid) :
+    2 * |t.lo.toInt| ≤ 2 ^ (Nat.log2 t.hi.toInt.natAbs - 52) := by
+  have hx := h.rnI_eq
+  have he := two_mul_abs_rnI_sub_le (t.hi.toInt + t.lo.toInt)
+  have hn : t.hi.toInt.natAbs = rn53 (t.hi.toInt + t.lo.toInt).natAbs := by
+    conv_lhs => rw [hx]
+    exact natAbs_rnI _
+  have hm := log2_le_log2_rn53 (t.hi.toInt + t.lo.toInt).natAbs
+  rw [← hn] at hm
+  have hp : (2 : Int) ^ (Nat.log2 (t.hi.toInt + t.lo.toInt).natAbs - 52)
+      ≤ 2 ^ (Nat.log2 t.hi.toInt.natAbs - 52) :=
+    pow_le_pow_right₀ (by norm_num) (by omega)
+  have e : rnI (t.hi.toInt + t.lo.toInt) - (t.hi.toInt + t.lo.toInt) = -t.lo.toInt := by
+    rw [← hx]; ring
+  rw [e, abs_neg, Int.natCast_pow] at he
+  exact le_trans he hp
+
+/-- ulp facts of an arbitrary integer `z` with `u = 2^(⌊log2 |z|⌋ - 52)` -/
+theorem abs_lt_ulp_mul (z : Int) : |z| < 2 ^ 53 * 2 ^ (Nat.log2 z.natAbs - 52) := by
+  have := lt_ulp_mul z.natAbs
+  rw [← Int.natCast_natAbs z]
+  exact_mod_cast this
+
+theorem ulp_mul_le_abs {z : Int} (h : Nat.log2 z.natAbs - 52 ≠ 0) :
+    2 ^ 52 * 2 ^ (Nat.log2 z.natAbs - 52) ≤ |z| := by
+  have h52 : 2 ^ 52 ≤ z.natAbs := by
+    by_contra hc
+    exact h (log2_sub_eq_zero (by omega))
+  have := (log2_sub_spec h52).1
+  rw [← Int.natCast_natAbs z]
+  exact_mod_cast this
+
+theorem two_pow_pos' (k : Nat) : (0 : Int) < 2 ^ k := by positivity
+
+theorem two_mul_pow_le_of_lt {p q : Nat} (h : p < q) : 2 * (2 : Int) ^ p ≤ 2 ^ q := by
+  have : (2 : Int) ^ (p + 1) ≤ 2 ^ q := pow_le_pow_right₀ (by norm_num) h
+  rwa [pow_succ, mul_comm] at this
+
+/-- a multiple of its own ulp-grid unit is representable: if `2^k ∣ z` with `k ≥ ⌊log2 |z|⌋ - 52` -/
+theorem repI_of_dvd_ulp {z : Int} {k : Nat} (hd : (2 : Int) ^ k ∣ z) (hk : Nat.log2 z.natAbs - 52 ≤ k) :
+    RepI z := by
+  apply rep_natAbs_of_dvd_of_le (k := Nat.log2 z.natAbs - 52)
+  · exact dvd_trans (pow_dvd_pow 2 hk) hd
+  · exact le_of_lt (abs_lt_ulp_mul z)
+
+/-- **The Fast2Sum precondition of DWPlusFP (Joldes–Muller–Popescu, Alg. 4).**  `x` the high word, `l` a low word
+with `|l| ≤ ulp(x)/2`, `y` a double, `s = RN(x + y)`, `e = x + y − s` the 2Sum error: if `s ≠ 0` then
+`|l + e| ≤ |s|` (and a fortiori `|RN(l + e)| ≤ |s|`). -/
+theorem dwplusfp_pre {x y l : Int} (hx : RepI x) (hy : RepI y)
+    (hl : 2 * |l| ≤ 2 ^ (Nat.log2 x.natAbs - 52)) (hs : rnI (x + y) ≠ 0) :
+    |l + (x + y - rnI (x + y))| ≤ |rnI (x + y)| := by
+  have dx := hx.ulp_dvd
+  have dy := hy.ulp_dvd
+  have bx := hx.add_ulp_le
+  have by' := hy.add_ulp_le
+  have lx := @ulp_mul_le_abs x
+  have bw := abs_lt_ulp_mul (x + y)
+  have lw := @ulp_mul_le_abs (x + y)
+  have ew := two_mul_abs_rnI_sub_le (x + y)
+  rw [abs_sub_comm] at ew
+  push_cast at ew
+  have px := two_pow_pos' (Nat.log2 x.natAbs - 52)
+  have py := two_pow_pos' (Nat.log2 y.natAbs - 52)
+  have pw := two_pow_pos' (Nat.log2 (x + y).natAbs - 52)
+  have hxw : |x| ≤ |x + y| + |y| := by
+    have := abs_add_le (x + y) (-y)
+    rwa [abs_neg, add_neg_cancel_right] at this
+  have htri := abs_add_le l (x + y - rnI (x + y))
+  by_cases he : x + y - rnI (x + y) = 0
+  · -- the sum is exact
+    have hsw : rnI (x + y) = x + y := by omega
+    rw [he, add_zero, hsw]
+    rw [hsw] at hs
+    rcases Nat.lt_or_ge (Nat.log2 y.natAbs - 52) (Nat.log2 x.natAbs - 52) with hc | hc
+    · have h2 := two_mul_pow_le_of_lt hc
+      have := lx (by omega)
+      omega
+    · have hd : (2 : Int) ^ (Nat.log2 x.natAbs - 52) ∣ x + y :=
+        dvd_add dx (dvd_trans (pow_dvd_pow 2 hc) dy)
+      have := Int.le_of_dvd (abs_pos.2 hs) ((dvd_abs _ _).2 hd)
+      omega
+  · -- the sum is inexact: `x + y` is at least `2^53` and `|s| ≥ 2^52 ulp(x + y)`
+    have hnr : ¬ RepI (x + y) := fun hr => he (by rw [rnI_of_repI hr]; ring)
+    have hew : Nat.log2 (x + y).natAbs - 52 ≠ 0 := by
+      intro h0
+      apply hnr
+      apply repI_of_dvd_ulp (k := 0) (by simp) (by omega)
+    have hlw := lw hew
+    have hS : 2 ^ 52 * 2 ^ (Nat.log2 (x + y).natAbs - 52) ≤ |rnI (x + y)| := by
+      have hr : RepI ((2 : Int) ^ 52 * 2 ^ (Nat.log2 (x + y).natAbs - 52)) := by
+        rw [← pow_add]
+        have := repI_natCast.2 (rep_two_pow (52 + (Nat.log2 (x + y).natAbs - 52)))
+        rwa [Int.natCast_pow] at this
+      have := le_abs_rnI (v := x + y) hr (by rw [abs_of_pos (by positivity)]; exact hlw)
+      rwa [abs_of_pos (by positivity)] at this
+    rcases Nat.lt_or_ge (Nat.log2 (x + y).natAbs - 52) (Nat.log2 x.natAbs - 52) with hc | hc
+    · have h2 := two_mul_pow_le_of_lt hc
+      have hlx := lx (by omega)
+      have hyw : Nat.log2 y.natAbs - 52 < Nat.log2 (x + y).natAbs - 52 := by
+        by_contra hcon
+        apply hnr
+        apply repI_of_dvd_ulp (k := Nat.log2 (x + y).natAbs - 52) _ (le_refl _)
+        exact dvd_add (dvd_trans (pow_dvd_pow 2 (by omega)) dx) (dvd_trans (pow_dvd_pow 2 (by omega)) dy)
+      have h3 := two_mul_pow_le_of_lt hyw
+      omega
+    · have h2 : (2 : Int) ^ (Nat.log2 x.natAbs - 52) ≤ 2 ^ (Nat.log2 (x + y).natAbs - 52) :=
+        pow_le_pow_right₀ (by norm_num) hc
+      omega
+
+end F64
+
+/-! ## 5. DWPlusFP and its variants re-establish the invariant -/
+
+namespace F64
+
+open TwoFloat
+
+/-- core of `TwoFloat + f64`, `f64 + TwoFloat`: `Fast2Sum(sh, l ⊕ sl)` with `(sh, sl) = 2Sum(x, y)`; `x`, `y` ANY finite
+well-formed doubles and `l` any well-formed double with `|l| ≤ ulp(x)/2` (non-finite `l` allowed) -/
+theorem dw_add_core_inv {x y l : F64} (hx : x.is_finite = true) (hy : y.is_finite = true)
+    (hwx : x.WF) (hwy : y.WF) (hl : 2 * |l.toInt| ≤ 2 ^ (Nat.log2 x.toInt.natAbs - 52)) :
+    (arithmetic.fast_two_sum (TwoFloat.new_add x y).hi (F64.add l (TwoFloat.new_add x y).lo)).Inv := by
+  by_cases hv : (F64.add l (TwoFloat.new_add x y).lo).is_finite = true
+  · obtain ⟨fl, fsl⟩ := is_finite_of_add hv
+    obtain ⟨wh, wl⟩ := new_add_words_of_lo_finite hx hy hwx hwy fsl
+    have vv := (IsVal.of_finite fl).add_of_finite wl hv
+    by_cases hs0 : rnI (x.toInt + y.toInt) = 0
+    · exact fast_two_sum_inv_of_dvd (new_add_WF x y).1 (add_WF _ _)
+        (Or.inr (by rw [wh.2, hs0]; exact dvd_zero _))
+    · refine fast_two_sum_inv (new_add_WF x y).1 (add_WF _ _) (Or.inr ?_)
+      rw [vv.2, wh.2]
+      have hp := dwplusfp_pre hwx.repI hwy.repI hl hs0
+      have := abs_rnI_le (v := l.toInt + (x.toInt + y.toInt - rnI (x.toInt + y.toInt)))
+        (repI_rnI (x.toInt + y.toInt)) hp
+      exact this
+  · exact Inv.of_not_finite (fast_two_sum_hi_not_finite (Or.inr (is_finite_eq_false_iff.2 hv)))
+
+/-- core of `TwoFloat − f64`: `Fast2Sum(sh, l ⊕ sl)` with `(sh, sl) = 2Sum(x, −y)` -/
+theorem dw_sub_core_inv {x y l : F64} (hx : x.is_finite = true) (hy : y.is_finite = true)
+    (hwx : x.WF) (hwy : y.WF) (hl : 2 * |l.toInt| ≤ 2 ^ (Nat.log2 x.toInt.natAbs - 52)) :
+    (arithmetic.fast_two_sum (TwoFloat.new_sub x y).hi (F64.add l (TwoFloat.new_sub x y).lo)).Inv := by
+  by_cases hv : (F64.add l (TwoFloat.new_sub x y).lo).is_finite = true
+  · obtain ⟨fl, fsl⟩ := is_finite_of_add hv
+    obtain ⟨wh, wl⟩ := new_sub_words_of_lo_finite hx hy hwx hwy fsl
+    have vv := (IsVal.of_finite fl).add_of_finite wl hv
+    by_cases hs0 : rnI (x.toInt - y.toInt) = 0
+    · exact fast_two_sum_inv_of_dvd (new_sub_WF x y).1 (add_WF _ _)
+        (Or.inr (by rw [wh.2, hs0]; exact dvd_zero _))
+    · refine fast_two_sum_inv (new_sub_WF x y).1 (add_WF _ _) (Or.inr ?_)
+      rw [vv.2, wh.2]
+      have hs0' : rnI (x.toInt + -y.toInt) ≠ 0 := by rwa [← Int.sub_eq_add_neg]
+      have hp := dwplusfp_pre hwx.repI hwy.repI.neg hl hs0'
+      rw [← Int.sub_eq_add_neg] at hp
+      exact abs_rnI_le (repI_rnI (x.toInt - y.toInt)) hp
+  · exact Inv.of_not_finite (fast_two_sum_hi_not_finite (Or.inr (is_finite_eq_false_iff.2 hv)))
+
+/-- core of `f64 − TwoFloat`: `Fast2Sum(sh, sl ⊖ l)` with `(sh, sl) = 2Sum(c, −x)` -/
+theorem dw_rsub_core_inv {x c l : F64} (hx : x.is_finite = true) (hc : c.is_finite = true)
+    (hwx : x.WF) (hwc : c.WF) (hl : 2 * |l.toInt| ≤ 2 ^ (Nat.log2 x.toInt.natAbs - 52)) :
+    (arithmetic.fast_two_sum (TwoFloat.new_sub c x).hi (F64.sub (TwoFloat.new_sub c x).lo l)).Inv := by
+  by_cases hv : (F64.sub (TwoFloat.new_sub c x).lo l).is_finite = true
+  · obtain ⟨fsl, fl⟩ := is_finite_of_sub hv
+    obtain ⟨wh, wl⟩ := new_sub_words_of_lo_finite hc hx hwc hwx fsl
+    have vv := wl.sub_of_finite (IsVal.of_finite fl) hv
+    by_cases hs0 : rnI (c.toInt - x.toInt) = 0
+    · exact fast_two_sum_inv_of_dvd (new_sub_WF c x).1 (sub_WF _ _)
+        (Or.inr (by rw [wh.2, hs0]; exact dvd_zero _))
+    · refine fast_two_sum_inv (new_sub_WF c x).1 (sub_WF _ _) (Or.inr ?_)
+      rw [vv.2, wh.2]
+      have e1 : -x.toInt + c.toInt = c.toInt - x.toInt := by ring
+      have hs0' : rnI (-x.toInt + c.toInt) ≠ 0 := by rwa [e1]
+      have hp := dwplusfp_pre (l := -l.toInt) hwx.repI.neg hwc.repI
+        (by rwa [abs_neg, Int.natAbs_neg]) hs0'
+      rw [e1] at hp
+      have e2 : -l.toInt + (c.toInt - x.toInt - rnI (c.toInt - x.toInt))
+          = c.toInt - x.toInt - rnI (c.toInt - x.toInt) - l.toInt := by ring
+      rw [e2] at hp
+      exact abs_rnI_le (repI_rnI (c.toInt - x.toInt)) hp
+  · exact Inv.of_not_finite (fast_two_sum_hi_not_finite (Or.inr (is_finite_eq_false_iff.2 hv)))
+
+end F64
+
+/-! ## 6. multiplication, division, fma with non-finite operands -/
+
+namespace F64
+
+theorem is_finite_of_mul {x y : F64} (h : (F64.mul x y).is_finite = true) :
+    x.is_finite = true ∧ y.is_finite = true := by
+  cases x with
+  | nan => exact absurd h (by simp [mul, is_finite])
+  | inf s =>
+    cases y with
+    | nan => exact absurd h (by simp [mul, is_finite])
+    | inf t => exact absurd h (by simp [mul, is_finite])
+    | fin t b => simp only [mul] at h; split_ifs at h <;> simp [is_finite] at h
+  | fin s a =>
+    cases y with
+    | nan => exact absurd h (by simp [mul, is_finite])
+    | inf t => simp only [mul] at h; split_ifs at h <;> simp [is_finite] at h
+    | fin t b => exact ⟨rfl, rfl⟩
+
+theorem mul_not_finite_left {x : F64} (y : F64) (h : x.is_finite = false) : (F64.mul x y).is_finite = false := by
+  rw [is_finite_eq_false_iff] at h ⊢
+  exact fun hc => h (is_finite_of_mul hc).1
+
+theorem mul_not_finite_right (x : F64) {y : F64} (h : y.is_finite = false) : (F64.mul x y).is_finite = false := by
+  rw [is_finite_eq_false_iff] at h ⊢
+  exact fun hc => h (is_finite_of_mul hc).2
+
+/-- a finite quotient has a finite numerator (the denominator may be infinite: `x / inf = 0`) -/
+theorem is_finite_of_div {x y : F64} (h : (F64.div x y).is_finite = true) : x.is_finite = true := by
+  cases x with
+  | nan => exact absurd h (by simp [div, is_finite])
+  | inf s =>
+    cases y with
+    | nan => exact absurd h (by simp [div, is_finite])
+    | inf t => exact absurd h (by simp [div, is_finite])
+    | fin t b => exact absurd h (by simp [div, is_finite])
+  | fin s a => rfl
+
+theorem div_not_finite_left {x : F64} (y : F64) (h : x.is_finite = false) : (F64.div x y).is_finite = false := by
+  rw [is_finite_eq_false_iff] at h ⊢
+  exact fun hc => h (is_finite_of_div hc)
+
+theorem div_nan_right (x : F64) : F64.div x nan = nan := by cases x <;> rfl
+
+/-- a finite fused multiply-add has finite operands -/
+theorem is_finite_of_fma {x y z : F64} (h : (F64.fma x y z).is_finite = true) :
+    x.is_finite = true ∧ y.is_finite = true ∧ z.is_finite = true := by
+  cases x with
+  | nan => exact absurd h (by simp [fma, is_finite])
+  | inf s =>
+    cases y with
+    | nan => exact absurd h (by simp [fma, is_finite])
+    | inf t => cases z <;> simp only [fma] at h <;> (try split_ifs at h) <;> simp [is_finite] at h
+    | fin t b =>
+      cases z <;> simp only [fma] at h <;> (try split_ifs at h) <;> simp [is_finite] at h
+  | fin s a =>
+    cases y with
+    | nan => exact absurd h (by simp [fma, is_finite])
+    | inf t =>
+      cases z <;> simp only [fma] at h <;> (try split_ifs at h) <;> simp [is_finite] at h
+    | fin t b =>
+      cases z with
+      | nan => exact absurd h (by simp [fma, is_finite])
+      | inf u => exact absurd h (by simp [fma, is_finite])
+      | fin u c => exact ⟨rfl, rfl, rfl⟩
+
+end F64
+
+/-! ## 7. the Fast2Sum precondition of DWTimesFP (`TwoFloat * f64`), all magnitudes (underflow included) -/
+
+namespace F64
+
+theorem roundQ_eq_zero_of_two_mul_le {p q : Nat} (hq : 0 < q) (h : 2 * p ≤ q) : roundQ p q = 0 := by
+  have hlt : p < q := by omega
+  rw [roundQ_of_lt hq (by have : q ≤ 2 ^ 53 * q := Nat.le_mul_of_pos_left q (by positivity); omega)]
+  unfold rint
+  simp only [Nat.div_eq_of_lt hlt, Nat.mod_eq_of_lt hlt]
+  split_ifs <;> omega
+
+/-- magnitudes in DWTimesFP: `C = RN(P/U)` the rounded product, `D` its residual, `C1 = RN(D/U)`, `N3` the exact
+argument of the second FMA; then `RN(N3/U) ≤ C` unless `C = 0` -/
+theorem dwtimesfp_nat {X Y L U D N3 : Nat} (hU : 0 < U) (hL : 2 ^ 53 * L ≤ X)
+    (hD : 2 * D ≤ U * 2 ^ (Nat.log2 (X * Y / U) - 52))
+    (hN : N3 ≤ L * Y + roundQ D U * U) :
+    roundQ (X * Y) U = 0 ∨ roundQ N3 U ≤ roundQ (X * Y) U := by
+  have hLY : 2 ^ 53 * (L * Y) ≤ X * Y := by
+    rw [← Nat.mul_assoc]; exact Nat.mul_le_mul_right Y hL
+  have hlt := roundQ_exp_lt (X * Y) U hU
+  generalize hP : X * Y = P at *
+  generalize hLYg : L * Y = LY at *
+  by_cases he : Nat.log2 (P / U) - 52 = 0
+  · rw [he, Nat.pow_zero, Nat.mul_one] at hD hlt
+    rw [roundQ_eq_zero_of_two_mul_le hU hD, Nat.zero_mul, Nat.add_zero] at hN
+    have h1 : roundQ N3 U ≤ 1 :=
+      roundQ_le_of_le hU (rep_of_lt (by decide)) (by omega)
+    by_cases hC : roundQ P U = 0
+    · exact Or.inl hC
+    · exact Or.inr (by omega)
+  · have h53 := roundQ_exp_pos hU he
+    have h52 : 2 ^ 52 * U ≤ P := by omega
+    have hC := pow_le_roundQ hU h52
+    obtain ⟨e', he'⟩ : ∃ e', Nat.log2 (P / U) - 52 = e' + 1 := ⟨Nat.log2 (P / U) - 52 - 1, by omega⟩
+    have e2 : 2 ^ (e' + 1) = 2 ^ e' * 2 := Nat.pow_succ 2 e'
+    rw [he', e2] at hD hlt hC
+    have hT : 0 < 2 ^ e' := Nat.two_pow_pos e'
+    have hTr : Rep (2 ^ e') := rep_two_pow e'
+    have hTr2 : Rep (2 ^ e' * 2 * 2) := by
+      have := rep_two_pow (e' + 1 + 1)
+      rwa [Nat.pow_succ, Nat.pow_succ] at this
+    generalize 2 ^ e' = T at *
+    have e1 : U * (T * 2) = 2 * (U * T) := by ring
+    rw [e1] at hD hlt
+    have hC1 : roundQ D U ≤ T := by
+      apply roundQ_le_of_le hU hTr
+      rw [Nat.mul_comm T U]; omega
+    have hC1U : roundQ D U * U ≤ U * T := by
+      rw [Nat.mul_comm U T]; exact Nat.mul_le_mul_right U hC1
+    have hN3 : roundQ N3 U ≤ T * 2 * 2 := by
+      apply roundQ_le_of_le hU hTr2
+      have e3 : T * 2 * 2 * U = 4 * (U * T) := by ring
+      rw [e3]; omega
+    right
+    omega
+
+end F64
+
+namespace F64
+
+open TwoFloat
+
+theorem roundSigned_finite {num : Int} {den : Nat} {zs : Bool}
+    (h : (roundSigned num den zs).is_finite = true) : roundQ num.natAbs den ≤ maxFin := by
+  by_contra hc
+  rw [roundSigned_overflow num zs (Nat.lt_of_not_le hc)] at h
+  exact absurd h (by simp [is_finite])
+
+theorem mul_spec_of_finite {x y : F64} (h : (F64.mul x y).is_finite = true) :
+    (F64.mul x y).toInt = rqI (x.toInt * y.toInt) unit := by
+  obtain ⟨hx, hy⟩ := is_finite_of_mul h
+  obtain ⟨zs, e⟩ := mul_eq hx hy
+  rw [e] at h
+  exact (mul_spec hx hy (roundSigned_finite h)).2
+
+theorem fma_spec_of_finite {x y z : F64} (h : (F64.fma x y z).is_finite = true) :
+    (F64.fma x y z).toInt = rqI (x.toInt * y.toInt + z.toInt * (unit : Int)) unit := by
+  obtain ⟨hx, hy, hz⟩ := is_finite_of_fma h
+  obtain ⟨zs, e⟩ := fma_eq hx hy hz
+  rw [e] at h
+  exact (fma_spec hx hy hz (roundSigned_finite h)).2
+
+/-- the residual of a correctly rounded quotient, in magnitudes -/
+theorem natAbs_sub_rqI_mul (p : Int) (U : Nat) :
+    ((p + -(rqI p U) * (U : Int)).natAbs : Int) = |((roundQ p.natAbs U : Nat) : Int) * (U : Int) - (p.natAbs : Int)| := by
+  rw [Int.natCast_natAbs, Int.natCast_natAbs]
+  unfold rqI
+  by_cases hp : p < 0
+  · rw [if_pos hp, abs_of_neg hp]
+    have : p + - -((roundQ p.natAbs U : Nat) : Int) * (U : Int) = ((roundQ p.natAbs U : Nat) : Int) * (U : Int) - -p := by
+      ring
+    rw [this]
+  · rw [if_neg hp, abs_of_nonneg (by omega : 0 ≤ p)]
+    have : p + -((roundQ p.natAbs U : Nat) : Int) * (U : Int) = -(((roundQ p.natAbs U : Nat) : Int) * (U : Int) - p) := by
+      ring
+    rw [this, abs_neg]
+
+/-- `2^53 |l| ≤ |x|` for a low word below half an ulp of `x` -/
+theorem two_pow_mul_le_of_half_ulp {x l : Int} (hl : 2 * |l| ≤ 2 ^ (Nat.log2 x.natAbs - 52)) :
+    2 ^ 53 * l.natAbs ≤ x.natAbs := by
+  have hcast : ((2 ^ 53 * l.natAbs : Nat) : Int) ≤ ((x.natAbs : Nat) : Int) := by
+    push_cast
+    by_cases he : Nat.log2 x.natAbs - 52 = 0
+    · rw [he, pow_zero] at hl
+      have : |l| = 0 := by have := abs_nonneg l; omega
+      rw [this]; have := abs_nonneg x; omega
+    · have := ulp_mul_le_abs he
+      have hp := two_pow_pos' (Nat.log2 x.natAbs - 52)
+      omega
+  exact_mod_cast hcast
+
+/-- core of `TwoFloat * f64`: `Fast2Sum(ch, fma(l, y, cl1))` with `(ch, cl1) = 2Prod(x, y)`; ANY doubles
+`x`, `y` (underflow, overflow, non-finite included) and `|l| ≤ ulp(x)/2` -/
+theorem dw_mul_core_inv {x y l : F64}
+    (hl : 2 * |l.toInt| ≤ 2 ^ (Nat.log2 x.toInt.natAbs - 52)) :
+    (arithmetic.fast_two_sum (TwoFloat.new_mul x y).hi (F64.fma l y (TwoFloat.new_mul x y).lo)).Inv := by
+  rw [new_mul_eq]
+  simp only
+  by_cases h3 : (F64.fma l y (F64.fma x y (F64.neg (F64.mul x y)))).is_finite = true
+  · obtain ⟨_, _, f1⟩ := is_finite_of_fma h3
+    obtain ⟨_, _, fn⟩ := is_finite_of_fma f1
+    have fch : (F64.mul x y).is_finite = true := by rwa [is_finite_neg] at fn
+    have vch := mul_spec_of_finite fch
+    have v1 := fma_spec_of_finite f1
+    have v3 := fma_spec_of_finite h3
+    rw [toInt_neg, vch] at v1
+    -- magnitudes
+    have hXY : (x.toInt * y.toInt).natAbs = x.toInt.natAbs * y.toInt.natAbs := Int.natAbs_mul _ _
+    have aC : (F64.mul x y).toInt.natAbs = roundQ (x.toInt.natAbs * y.toInt.natAbs) unit := by
+      rw [vch, natAbs_rqI, hXY]
+    have aC1 : (F64.fma x y (F64.neg (F64.mul x y))).toInt.natAbs
+        = roundQ (x.toInt * y.toInt + -rqI (x.toInt * y.toInt) unit * (unit : Int)).natAbs unit := by
+      rw [v1, natAbs_rqI]
+    have aC3 : (F64.fma l y (F64.fma x y (F64.neg (F64.mul x y)))).toInt.natAbs
+        = roundQ (l.toInt * y.toInt + (F64.fma x y (F64.neg (F64.mul x y))).toInt * (unit : Int)).natAbs unit := by
+      rw [v3, natAbs_rqI]
+    have hD : 2 * (x.toInt * y.toInt + -rqI (x.toInt * y.toInt) unit * (unit : Int)).natAbs
+        ≤ unit * 2 ^ (Nat.log2 (x.toInt.natAbs * y.toInt.natAbs / unit) - 52) := by
+      have h := roundQ_abs_err (x.toInt * y.toInt).natAbs unit unit_pos
+      rw [← natAbs_sub_rqI_mul, hXY] at h
+      exact_mod_cast h
+    have hN : (l.toInt * y.toInt + (F64.fma x y (F64.neg (F64.mul x y))).toInt * (unit : Int)).natAbs
+        ≤ l.toInt.natAbs * y.toInt.natAbs +
+          roundQ (x.toInt * y.toInt + -rqI (x.toInt * y.toInt) unit * (unit : Int)).natAbs unit * unit := by
+      refine le_trans (Int.natAbs_add_le _ _) ?_
+      rw [Int.natAbs_mul, Int.natAbs_mul, Int.natAbs_natCast, aC1]
+    have key := dwtimesfp_nat unit_pos (two_pow_mul_le_of_half_ulp hl) hD hN
+    rw [← aC, ← aC3] at key
+    rcases key with k0 | kle
+    · refine fast_two_sum_inv_of_dvd (mul_WF _ _) (fma_WF _ _ _) (Or.inr ?_)
+      have : (F64.mul x y).toInt = 0 := Int.natAbs_eq_zero.1 k0
+      rw [this]; exact dvd_zero _
+    · refine fast_two_sum_inv (mul_WF _ _) (fma_WF _ _ _) (Or.inr ?_)
+      rw [← Int.natCast_natAbs, ← Int.natCast_natAbs]
+      exact_mod_cast kle
+  · exact Inv.of_not_finite (fast_two_sum_hi_not_finite (Or.inr (is_finite_eq_false_iff.2 h3)))
+
+end F64
+
+/-! ## 8. the Fast2Sum precondition of DWTimesDW (`TwoFloat * TwoFloat`), all magnitudes -/
+
+namespace F64
+
+open TwoFloat
+
+/-- magnitudes in the crate's DWTimesDW: `C = RN(P/U)`, `C1` its FMA residual, `T0 = RN(Xl·Yl/U)`,
+`T1 = RN((Xh·Yl + T0·U)/U)`, `C2 = RN((Xl·Yh + T1·U)/U)`, `C3 = RN(C1 + C2)`: then `C3 ≤ C` -/
+theorem dwtimesdw_nat {Xh Xl Yh Yl U D N1 N2 N3 : Nat} (hU : 0 < U)
+    (hX : 2 ^ 53 * Xl ≤ Xh) (hY : 2 ^ 53 * Yl ≤ Yh)
+    (hD : 2 * D ≤ U * 2 ^ (Nat.log2 (Xh * Yh / U) - 52))
+    (h1 : N1 ≤ Xh * Yl + roundQ (Xl * Yl) U * U)
+    (h2 : N2 ≤ Xl * Yh + roundQ N1 U * U)
+    (h3 : N3 ≤ roundQ D U + roundQ N2 U) :
+    rn53 N3 ≤ roundQ (Xh * Yh) U := by
+  have hA : 2 ^ 53 * (Xh * Yl) ≤ Xh * Yh := by
+    rw [Nat.mul_left_comm]; exact Nat.mul_le_mul_left Xh hY
+  have hB : 2 ^ 53 * (Xl * Yh) ≤ Xh * Yh := by
+    rw [← Nat.mul_assoc]; exact Nat.mul_le_mul_right Yh hX
+  have hZ : 2 ^ 106 * (Xl * Yl) ≤ Xh * Yh := by
+    have := Nat.mul_le_mul hX hY
+    have e : 2 ^ 53 * Xl * (2 ^ 53 * Yl) = 2 ^ 106 * (Xl * Yl) := by ring
+    rwa [e] at this
+  have hlt := roundQ_exp_lt (Xh * Yh) U hU
+  have hCrep : Rep (roundQ (Xh * Yh) U) := roundQ_rep _ _ hU
+  generalize Xh * Yh = P at *
+  generalize Xh * Yl = A at *
+  generalize Xl * Yh = B at *
+  generalize Xl * Yl = Z at *
+  by_cases he : Nat.log2 (P / U) - 52 = 0
+  · rw [he, Nat.pow_zero, Nat.mul_one] at hD hlt
+    rw [roundQ_eq_zero_of_two_mul_le hU hD, Nat.zero_add] at h3
+    rw [roundQ_eq_zero_of_two_mul_le hU (by omega : 2 * Z ≤ U), Nat.zero_mul, Nat.add_zero] at h1
+    have hT1 := roundQ_mul_le_two_mul N1 U hU
+    have hN2 : N2 ≤ P := by omega
+    have hC2 : roundQ N2 U ≤ roundQ P U := roundQ_mono U hU hN2
+    have := rn53_mono (Nat.le_trans h3 hC2)
+    rwa [rn53_of_rep hCrep] at this
+  · have h53 := roundQ_exp_pos hU he
+    have h52 : 2 ^ 52 * U ≤ P := by omega
+    have hC := pow_le_roundQ hU h52
+    obtain ⟨e', he'⟩ : ∃ e', Nat.log2 (P / U) - 52 = e' + 1 := ⟨Nat.log2 (P / U) - 52 - 1, by omega⟩
+    have e2 : 2 ^ (e' + 1) = 2 ^ e' * 2 := Nat.pow_succ 2 e'
+    rw [he', e2] at hD hlt hC
+    have hT : 0 < 2 ^ e' := Nat.two_pow_pos e'
+    have r1 : Rep (2 ^ e') := rep_two_pow e'
+    have r2 : Rep (2 ^ e' * 2) := by
+      have := rep_two_pow (e' + 1); rwa [Nat.pow_succ] at this
+    have r4 : Rep (2 ^ e' * 2 * 2) := by
+      have := rep_two_pow (e' + 1 + 1); rwa [Nat.pow_succ, Nat.pow_succ] at this
+    have r8 : Rep (2 ^ e' * 2 * 2 * 2) := by
+      have := rep_two_pow (e' + 1 + 1 + 1); rwa [Nat.pow_succ, Nat.pow_succ, Nat.pow_succ] at this
+    have r16 : Rep (2 ^ e' * 2 * 2 * 2 * 2) := by
+      have := rep_two_pow (e' + 1 + 1 + 1 + 1)
+      rwa [Nat.pow_succ, Nat.pow_succ, Nat.pow_succ, Nat.pow_succ] at this
+    generalize 2 ^ e' = T at *
+    have e1 : U * (T * 2) = 2 * (U * T) := by ring
+    rw [e1] at hD hlt
+    have hC1 : roundQ D U ≤ T := by
+      apply roundQ_le_of_le hU r1
+      rw [Nat.mul_comm T U]; omega
+    have hT0 : roundQ Z U ≤ T * 2 := by
+      apply roundQ_le_of_le hU r2
+      have e3 : T * 2 * U = 2 * (U * T) := by ring
+      rw [e3]; omega
+    have hT0U : roundQ Z U * U ≤ 2 * (U * T) := by
+      have := Nat.mul_le_mul_right U hT0
+      have e3 : T * 2 * U = 2 * (U * T) := by ring
+      rwa [e3] at this
+    have hT1 : roundQ N1 U ≤ T * 2 * 2 := by
+      apply roundQ_le_of_le hU r4
+      have e3 : T * 2 * 2 * U = 4 * (U * T) := by ring
+      rw [e3]; omega
+    have hT1U : roundQ N1 U * U ≤ 4 * (U * T) := by
+      have := Nat.mul_le_mul_right U hT1
+      have e3 : T * 2 * 2 * U = 4 * (U * T) := by ring
+      rwa [e3] at this
+    have hC2 : roundQ N2 U ≤ T * 2 * 2 * 2 := by
+      apply roundQ_le_of_le hU r8
+      have e3 : T * 2 * 2 * 2 * U = 8 * (U * T) := by ring
+      rw [e3]; omega
+    have hC3 : rn53 N3 ≤ T * 2 * 2 * 2 * 2 := rn53_le_of_le r16 (by omega)
+    omega
+
+end F64
+
+namespace F64
+
+open TwoFloat
+
+theorem natAbs_mul_spec {x y : F64} (h : (F64.mul x y).is_finite = true) :
+    (F64.mul x y).toInt.natAbs = roundQ (x.toInt.natAbs * y.toInt.natAbs) unit := by
+  rw [mul_spec_of_finite h, natAbs_rqI, Int.natAbs_mul]
+
+/-- magnitude of a finite FMA result, bounded through the triangle inequality and monotonicity of rounding -/
+theorem natAbs_fma_le {x y z : F64} (h : (F64.fma x y z).is_finite = true) :
+    ∃ N, (F64.fma x y z).toInt.natAbs = roundQ N unit ∧
+      N ≤ x.toInt.natAbs * y.toInt.natAbs + z.toInt.natAbs * unit := by
+  refine ⟨(x.toInt * y.toInt + z.toInt * (unit : Int)).natAbs, ?_, ?_⟩
+  · rw [fma_spec_of_finite h, natAbs_rqI]
+  · refine le_trans (Int.natAbs_add_le _ _) ?_
+    rw [Int.natAbs_mul, Int.natAbs_mul, Int.natAbs_natCast]
+
+theorem natAbs_add_le_of_finite {x y : F64} (h : (F64.add x y).is_finite = true) :
+    ∃ N, (F64.add x y).toInt.natAbs = rn53 N ∧ N ≤ x.toInt.natAbs + y.toInt.natAbs := by
+  obtain ⟨hx, hy⟩ := is_finite_of_add h
+  refine ⟨(x.toInt + y.toInt).natAbs, ?_, Int.natAbs_add_le _ _⟩
+  rw [(add_spec hx hy (rn53_le_maxFin_of_add_finite hx hy h)).2, natAbs_rnI]
+
+/-- core of `TwoFloat * TwoFloat`: ANY doubles `xh`, `yh` (underflow, overflow, non-finite included), low words below
+half an ulp of their high words -/
+theorem dw_mul_tt_core_inv {xh xl yh yl : F64}
+    (hx : 2 * |xl.toInt| ≤ 2 ^ (Nat.log2 xh.toInt.natAbs - 52))
+    (hy : 2 * |yl.toInt| ≤ 2 ^ (Nat.log2 yh.toInt.natAbs - 52)) :
+    (arithmetic.fast_two_sum (TwoFloat.new_mul xh yh).hi
+      (F64.add (TwoFloat.new_mul xh yh).lo (F64.fma xl yh (F64.fma xh yl (F64.mul xl yl))))).Inv := by
+  rw [new_mul_eq]
+  simp only
+  by_cases h3 : (F64.add (F64.fma xh yh (F64.neg (F64.mul xh yh)))
+      (F64.fma xl yh (F64.fma xh yl (F64.mul xl yl)))).is_finite = true
+  · obtain ⟨f1, f2⟩ := is_finite_of_add h3
+    obtain ⟨_, _, ft1⟩ := is_finite_of_fma f2
+    obtain ⟨_, _, ft0⟩ := is_finite_of_fma ft1
+    obtain ⟨_, _, fn⟩ := is_finite_of_fma f1
+    have fch : (F64.mul xh yh).is_finite = true := by rwa [is_finite_neg] at fn
+    have aC := natAbs_mul_spec fch
+    have aT0 := natAbs_mul_spec ft0
+    have v1 := fma_spec_of_finite f1
+    rw [toInt_neg, mul_spec_of_finite fch] at v1
+    have aC1 : (F64.fma xh yh (F64.neg (F64.mul xh yh))).toInt.natAbs
+        = roundQ (xh.toInt * yh.toInt + -rqI (xh.toInt * yh.toInt) unit * (unit : Int)).natAbs unit := by
+      rw [v1, natAbs_rqI]
+    have hD : 2 * (xh.toInt * yh.toInt + -rqI (xh.toInt * yh.toInt) unit * (unit : Int)).natAbs
+        ≤ unit * 2 ^ (Nat.log2 (xh.toInt.natAbs * yh.toInt.natAbs / unit) - 52) := by
+      have h := roundQ_abs_err (xh.toInt * yh.toInt).natAbs unit unit_pos
+      rw [← natAbs_sub_rqI_mul, Int.natAbs_mul] at h
+      exact_mod_cast h
+    obtain ⟨N1, aT1, hN1⟩ := natAbs_fma_le ft1
+    obtain ⟨N2, aC2, hN2⟩ := natAbs_fma_le f2
+    obtain ⟨N3, aC3, hN3⟩ := natAbs_add_le_of_finite h3
+    rw [aT0] at hN1
+    rw [aT1] at hN2
+    rw [aC1, aC2] at hN3
+    have key := dwtimesdw_nat unit_pos (two_pow_mul_le_of_half_ulp hx) (two_pow_mul_le_of_half_ulp hy)
+      hD hN1 hN2 hN3
+    rw [← aC, ← aC3] at key
+    refine fast_two_sum_inv (mul_WF _ _) (add_WF _ _) (Or.inr ?_)
+    rw [← Int.natCast_natAbs, ← Int.natCast_natAbs]
+    exact_mod_cast key
+  · exact Inv.of_not_finite (fast_two_sum_hi_not_finite (Or.inr (is_finite_eq_false_iff.2 h3)))
+
+end F64
+
+/-! ## 9. the Fast2Sum preconditions of AccurateDWPlusDW (`TwoFloat ± TwoFloat`) -/
+
+namespace F64
+
+open TwoFloat
+
+theorem rel_err_rnI (v : Int) : 2 ^ 53 * |rnI v - v| ≤ |v| := by
+  rw [abs_rnI_sub, ← Int.natCast_natAbs v]
+  exact rn53_rel_err v.natAbs
+
+theorem repI_two_pow (k : Nat) : RepI ((2 : Int) ^ k) := by
+  have := repI_natCast.2 (rep_two_pow k)
+  rwa [Int.natCast_pow] at this
+
+/-- the ulp exponent does not decrease under rounding -/
+theorem ulpexp_le_ulpexp_rnI (v : Int) :
+    Nat.log2 v.natAbs - 52 ≤ Nat.log2 (rnI v).natAbs - 52 := by
+  rw [natAbs_rnI]
+  have := log2_le_log2_rn53 v.natAbs
+  omega
+
+theorem ulpexp_le_of_abs_lt {z : Int} {e : Nat} (h : |z| < 2 ^ 53 * 2 ^ e) : Nat.log2 z.natAbs - 52 ≤ e := by
+  apply log2_sub_le
+  rw [← Int.natCast_natAbs z] at h
+  exact_mod_cast h
+
+/-- **The two Fast2Sum preconditions of AccurateDWPlusDW** (Joldes–Muller–Popescu, Alg. 6, in the crate's form) on
+scaled integers, for all representable high words and low words below half an ulp:
+`S = RN(xh + yh)`, `T = RN(xl + yl)`, `c = RN(sl + T)`, `V = RN(S + c)`.
+(1) `|c| ≤ |S|` or `ulp(c) ∣ S`;  (2) `V = 0` or `|tl + vl| ≤ |V|` with `vl = S + c − V`. -/
+theorem dwplusdw_pre {xh xl yh yl : Int} (hxh : RepI xh) (hyh : RepI yh)
+    (hx : 2 * |xl| ≤ 2 ^ (Nat.log2 xh.natAbs - 52)) (hy : 2 * |yl| ≤ 2 ^ (Nat.log2 yh.natAbs - 52)) :
+    (|rnI (xh + yh - rnI (xh + yh) + rnI (xl + yl))| ≤ |rnI (xh + yh)| ∨
+      (2 : Int) ^ (Nat.log2 (rnI (xh + yh - rnI (xh + yh) + rnI (xl + yl))).natAbs - 52) ∣ rnI (xh + yh)) ∧
+    (rnI (rnI (xh + yh) + rnI (xh + yh - rnI (xh + yh) + rnI (xl + yl))) = 0 ∨
+      |xl + yl - rnI (xl + yl) +
+          (rnI (xh + yh) + rnI (xh + yh - rnI (xh + yh) + rnI (xl + yl)) -
+            rnI (rnI (xh + yh) + rnI (xh + yh - rnI (xh + yh) + rnI (xl + yl))))|
+        ≤ |rnI (rnI (xh + yh) + rnI (xh + yh - rnI (xh + yh) + rnI (xl + yl)))|) := by
+  wlog hexy : Nat.log2 yh.natAbs - 52 ≤ Nat.log2 xh.natAbs - 52 generalizing xh xl yh yl
+  · have := this hyh hxh hy hx (by omega)
+    rwa [Int.add_comm yh xh, Int.add_comm yl xl] at this
+  -- notation
+  have pux := two_pow_pos' (Nat.log2 xh.natAbs - 52)
+  have puy := two_pow_pos' (Nat.log2 yh.natAbs - 52)
+  have hule : (2 : Int) ^ (Nat.log2 yh.natAbs - 52) ≤ 2 ^ (Nat.log2 xh.natAbs - 52) :=
+    pow_le_pow_right₀ (by norm_num) hexy
+  have dxh := hxh.ulp_dvd
+  have dyh := hyh.ulp_dvd
+  have dxh' : (2 : Int) ^ (Nat.log2 yh.natAbs - 52) ∣ xh := dvd_trans (pow_dvd_pow 2 hexy) dxh
+  -- low sum
+  have hL : |xl + yl| ≤ 2 ^ (Nat.log2 xh.natAbs - 52) := by
+    have := abs_add_le xl yl; omega
+  have hT : |rnI (xl + yl)| ≤ 2 ^ (Nat.log2 xh.natAbs - 52) := by
+    have := abs_rnI_le (v := xl + yl) (repI_two_pow (Nat.log2 xh.natAbs - 52))
+      (by rwa [abs_of_pos pux])
+    rwa [abs_of_pos pux] at this
+  have htl := rel_err_rnI (xl + yl)
+  rw [abs_sub_comm] at htl
+  have hsl := rel_err_rnI (xh + yh)
+  rw [abs_sub_comm] at hsl
+  generalize hX : xh + yh = X at *
+  generalize hLd : xl + yl = L at *
+  by_cases hB : |rnI X| < 4 * 2 ^ (Nat.log2 xh.natAbs - 52)
+  · -- cancellation: the high sum is exact
+    have hXlt : |X| < 4 * 2 ^ (Nat.log2 xh.natAbs - 52) := by
+      by_contra hc
+      have hr : RepI ((2 : Int) ^ (Nat.log2 xh.natAbs - 52 + 2)) := repI_two_pow _
+      have e4 : (2 : Int) ^ (Nat.log2 xh.natAbs - 52 + 2) = 4 * 2 ^ (Nat.log2 xh.natAbs - 52) := by
+        rw [pow_add]; ring
+      rw [e4] at hr
+      have := le_abs_rnI (v := X) hr (by rw [abs_of_pos (by omega)]; omega)
+      rw [abs_of_pos (by omega)] at this
+      omega
+    have h2 : (2 : Int) ^ (Nat.log2 xh.natAbs - 52) ≤ 2 * 2 ^ (Nat.log2 yh.natAbs - 52) := by
+      by_cases hex : Nat.log2 xh.natAbs - 52 = 0
+      · rw [hex, pow_zero]; omega
+      · have lx := ulp_mul_le_abs hex
+        by_contra hc
+        have hlt : Nat.log2 yh.natAbs - 52 + 2 ≤ Nat.log2 xh.natAbs - 52 := by
+          by_contra hcc
+          have : Nat.log2 xh.natAbs - 52 ≤ Nat.log2 yh.natAbs - 52 + 1 := by omega
+          have := pow_le_pow_right₀ (show (1 : Int) ≤ 2 by norm_num) this
+          rw [pow_succ] at this
+          omega
+        have h4 : (2 : Int) ^ (Nat.log2 yh.natAbs - 52 + 2) ≤ 2 ^ (Nat.log2 xh.natAbs - 52) :=
+          pow_le_pow_right₀ (by norm_num) hlt
+        have e4 : (2 : Int) ^ (Nat.log2 yh.natAbs - 52 + 2) = 4 * 2 ^ (Nat.log2 yh.natAbs - 52) := by
+          rw [pow_add]; ring
+        rw [e4] at h4
+        have by' := abs_lt_ulp_mul yh
+        have htri : |xh| ≤ |X| + |yh| := by
+          have := abs_add_le X (-yh)
+          rw [abs_neg, ← hX, add_neg_cancel_right] at this
+          rwa [← hX]
+        omega
+    have dX : (2 : Int) ^ (Nat.log2 yh.natAbs - 52) ∣ X := by rw [← hX]; exact dvd_add dxh' dyh
+    have hXrep : RepI X := by
+      apply rep_natAbs_of_dvd_of_le dX; omega
+    have hS : rnI X = X := rnI_of_repI hXrep
+    rw [hS, sub_self, zero_add, rnI_of_repI (repI_rnI L)]
+    have hTe : Nat.log2 (rnI L).natAbs - 52 ≤ Nat.log2 yh.natAbs - 52 :=
+      ulpexp_le_of_abs_lt (by omega)
+    have dS : (2 : Int) ^ (Nat.log2 (rnI L).natAbs - 52) ∣ X := dvd_trans (pow_dvd_pow 2 hTe) dX
+    refine ⟨Or.inr dS, ?_⟩
+    by_cases hV : rnI (X + rnI L) = 0
+    · exact Or.inl hV
+    · right
+      have dT : (2 : Int) ^ (Nat.log2 (rnI L).natAbs - 52) ∣ rnI L := (repI_rnI L).ulp_dvd
+      have dV : (2 : Int) ^ (Nat.log2 (rnI L).natAbs - 52) ∣ rnI (X + rnI L) := rnI_dvd (dvd_add dS dT)
+      have hVK := Int.le_of_dvd (abs_pos.2 hV) ((dvd_abs _ _).2 dV)
+      have hKt : 2 * |L - rnI L| ≤ 2 ^ (Nat.log2 (rnI L).natAbs - 52) := by
+        have h1 := two_mul_abs_rnI_sub_le L
+        rw [abs_sub_comm] at h1
+        push_cast at h1
+        have h3 : (2 : Int) ^ (Nat.log2 L.natAbs - 52) ≤ 2 ^ (Nat.log2 (rnI L).natAbs - 52) :=
+          pow_le_pow_right₀ (by norm_num) (ulpexp_le_ulpexp_rnI L)
+        omega
+      have hvl := rel_err_rnI (X + rnI L)
+      rw [abs_sub_comm] at hvl
+      have t1 : |X + rnI L| ≤ |rnI (X + rnI L)| + |X + rnI L - rnI (X + rnI L)| := by
+        have := abs_add_le (rnI (X + rnI L)) (X + rnI L - rnI (X + rnI L))
+        rwa [add_sub_cancel] at this
+      have t2 := abs_add_le (L - rnI L) (X + rnI L - rnI (X + rnI L))
+      omega
+  · -- no cancellation: `|S| ≥ 4 ulp(xh)`
+    have hB' : 4 * 2 ^ (Nat.log2 xh.natAbs - 52) ≤ |rnI X| := by omega
+    have t0 : |X| ≤ |rnI X| + |X - rnI X| := by
+      have := abs_add_le (rnI X) (X - rnI X)
+      rwa [add_sub_cancel] at this
+    have hc := rel_err_rnI (X - rnI X + rnI L)
+    have t1 := abs_add_le (X - rnI X) (rnI L)
+    have t2 : |rnI (X - rnI X + rnI L)| ≤ |X - rnI X + rnI L| + |rnI (X - rnI X + rnI L) - (X - rnI X + rnI L)| := by
+      have := abs_add_le (X - rnI X + rnI L) (rnI (X - rnI X + rnI L) - (X - rnI X + rnI L))
+      rwa [add_sub_cancel] at this
+    have hcS : |rnI (X - rnI X + rnI L)| ≤ |rnI X| := by omega
+    refine ⟨Or.inl hcS, Or.inr ?_⟩
+    generalize rnI (X - rnI X + rnI L) = c at *
+    have hvl := rel_err_rnI (rnI X + c)
+    rw [abs_sub_comm] at hvl
+    have t3 : |rnI X| ≤ |rnI X + c| + |c| := by
+      have := abs_add_le (rnI X + c) (-c)
+      rwa [abs_neg, add_neg_cancel_right] at this
+    have t4 : |rnI X + c| ≤ |rnI (rnI X + c)| + |rnI X + c - rnI (rnI X + c)| := by
+      have := abs_add_le (rnI (rnI X + c)) (rnI X + c - rnI (rnI X + c))
+      rwa [add_sub_cancel] at this
+    have t5 := abs_add_le (L - rnI L) (rnI X + c - rnI (rnI X + c))
+    omega
+
+end F64
+
+namespace F64
+
+open TwoFloat
+
+/-- the common tail of `TwoFloat + TwoFloat` and `TwoFloat − TwoFloat`: given the two 2Sums `(sh, sl)`, `(th, tl)`,
+`c = sl ⊕ th`, `(vh, vl) = Fast2Sum(sh, c)`, `w = tl ⊕ vl`, result `Fast2Sum(vh, w)`.  `H` says that the 2Sums are
+error-free whenever their low words are finite. -/
+theorem dw_tail_inv {sh sl th tl : F64} {xh xl yh yl : Int} (hwsh : sh.WF)
+    (hxh : RepI xh) (hyh : RepI yh)
+    (hx : 2 * |xl| ≤ 2 ^ (Nat.log2 xh.natAbs - 52)) (hy : 2 * |yl| ≤ 2 ^ (Nat.log2 yh.natAbs - 52))
+    (H : sl.is_finite = true → tl.is_finite = true →
+      IsVal sh (rnI (xh + yh)) ∧ IsVal sl (xh + yh - rnI (xh + yh)) ∧
+      IsVal th (rnI (xl + yl)) ∧ IsVal tl (xl + yl - rnI (xl + yl))) :
+    (arithmetic.fast_two_sum (arithmetic.fast_two_sum sh (F64.add sl th)).hi
+      (F64.add tl (arithmetic.fast_two_sum sh (F64.add sl th)).lo)).Inv := by
+  by_cases hw : (F64.add tl (arithmetic.fast_two_sum sh (F64.add sl th)).lo).is_finite = true
+  · obtain ⟨ftl, fvl⟩ := is_finite_of_add hw
+    have fvl' := fvl
+    rw [fast_two_sum_eq] at fvl'
+    simp only at fvl'
+    obtain ⟨fc, fz⟩ := is_finite_of_sub fvl'
+    obtain ⟨fsl, fth⟩ := is_finite_of_add fc
+    obtain ⟨vsh, vsl, vth, vtl⟩ := H fsl ftl
+    have vc := vsl.add_of_finite vth fc
+    obtain ⟨fvh, _⟩ := is_finite_of_sub fz
+    obtain ⟨P1, P2⟩ := dwplusdw_pre hxh hyh hx hy
+    have hov := rn53_le_maxFin_of_add_finite vsh.1 vc.1 fvh
+    have Vw : IsVal (arithmetic.fast_two_sum sh (F64.add sl th)).hi
+          (rnI (sh.toInt + (F64.add sl th).toInt)) ∧
+        IsVal (arithmetic.fast_two_sum sh (F64.add sl th)).lo
+          (sh.toInt + (F64.add sl th).toInt - rnI (sh.toInt + (F64.add sl th).toInt)) := by
+      rcases P1 with p | p
+      · exact fast_two_sum_words vsh.1 vc.1 hwsh (add_WF _ _) (by rw [vsh.2, vc.2]; exact p) hov
+      · exact fast_two_sum_words_of_dvd vsh.1 vc.1 hwsh (add_WF _ _) (by rw [vsh.2, vc.2]; exact p) hov
+    rw [vsh.2, vc.2] at Vw
+    have vw := vtl.add_of_finite Vw.2 hw
+    rcases P2 with p | p
+    · exact fast_two_sum_inv_of_dvd (fast_two_sum_WF _ _).1 (add_WF _ _)
+        (Or.inr (by rw [Vw.1.2, p]; exact dvd_zero _))
+    · exact fast_two_sum_inv (fast_two_sum_WF _ _).1 (add_WF _ _)
+        (Or.inr (by rw [vw.2, Vw.1.2]; exact abs_rnI_le (repI_rnI _) p))
+  · exact Inv.of_not_finite (fast_two_sum_hi_not_finite (Or.inr (is_finite_eq_false_iff.2 hw)))
+
+/-- a finite low word of `new_add` / `new_sub` forces finite operands -/
+theorem new_add_finite_of_lo {a b : F64} (h : (TwoFloat.new_add a b).lo.is_finite = true) :
+    a.is_finite = true ∧ b.is_finite = true := by
+  rw [new_add_eq] at h
+  simp only at h
+  obtain ⟨fda, fdb⟩ := is_finite_of_add h
+  exact ⟨(is_finite_of_sub fda).1, (is_finite_of_sub fdb).1⟩
+
+theorem new_sub_finite_of_lo {a b : F64} (h : (TwoFloat.new_sub a b).lo.is_finite = true) :
+    a.is_finite = true ∧ b.is_finite = true := by
+  rw [new_sub_eq] at h
+  simp only at h
+  obtain ⟨fda, fdb⟩ := is_finite_of_sub h
+  exact ⟨(is_finite_of_sub fda).1, (is_finite_of_add fdb).1⟩
+
+/-- core of `TwoFloat + TwoFloat`: all well-formed words with the half-ulp bounds (any magnitudes; non-finite words
+allowed — they propagate to the high word) -/
+theorem dw_add_tt_core_inv {xh xl yh yl : F64} (hwxh : xh.WF) (hwxl : xl.WF) (hwyh : yh.WF) (hwyl : yl.WF)
+    (hx : 2 * |xl.toInt| ≤ 2 ^ (Nat.log2 xh.toInt.natAbs - 52))
+    (hy : 2 * |yl.toInt| ≤ 2 ^ (Nat.log2 yh.toInt.natAbs - 52)) :
+    (arithmetic.fast_two_sum
+      (arithmetic.fast_two_sum (TwoFloat.new_add xh yh).hi
+        (F64.add (TwoFloat.new_add xh yh).lo (TwoFloat.new_add xl yl).hi)).hi
+      (F64.add (TwoFloat.new_add xl yl).lo
+        (arithmetic.fast_two_sum (TwoFloat.new_add xh yh).hi
+          (F64.add (TwoFloat.new_add xh yh).lo (TwoFloat.new_add xl yl).hi)).lo)).Inv := by
+  apply dw_tail_inv (new_add_WF xh yh).1 hwxh.repI hwyh.repI hx hy
+  intro fsl ftl
+  obtain ⟨f1, f2⟩ := new_add_finite_of_lo fsl
+  obtain ⟨f3, f4⟩ := new_add_finite_of_lo ftl
+  obtain ⟨a1, a2⟩ := new_add_words_of_lo_finite f1 f2 hwxh hwyh fsl
+  obtain ⟨a3, a4⟩ := new_add_words_of_lo_finite f3 f4 hwxl hwyl ftl
+  exact ⟨a1, a2, a3, a4⟩
+
+/-- core of `TwoFloat − TwoFloat` -/
+theorem dw_sub_tt_core_inv {xh xl yh yl : F64} (hwxh : xh.WF) (hwxl : xl.WF) (hwyh : yh.WF) (hwyl : yl.WF)
+    (hx : 2 * |xl.toInt| ≤ 2 ^ (Nat.log2 xh.toInt.natAbs - 52))
+    (hy : 2 * |yl.toInt| ≤ 2 ^ (Nat.log2 yh.toInt.natAbs - 52)) :
+    (arithmetic.fast_two_sum
+      (arithmetic.fast_two_sum (TwoFloat.new_sub xh yh).hi
+        (F64.add (TwoFloat.new_sub xh yh).lo (TwoFloat.new_sub xl yl).hi)).hi
+      (F64.add (TwoFloat.new_sub xl yl).lo
+        (arithmetic.fast_two_sum (TwoFloat.new_sub xh yh).hi
+          (F64.add (TwoFloat.new_sub xh yh).lo (TwoFloat.new_sub xl yl).hi)).lo)).Inv := by
+  apply dw_tail_inv (xh := xh.toInt) (xl := xl.toInt) (yh := -yh.toInt) (yl := -yl.toInt)
+    (new_sub_WF xh yh).1 hwxh.repI hwyh.repI.neg hx (by rwa [abs_neg, Int.natAbs_neg])
+  intro fsl ftl
+  obtain ⟨f1, f2⟩ := new_sub_finite_of_lo fsl
+  obtain ⟨f3, f4⟩ := new_sub_finite_of_lo ftl
+  obtain ⟨a1, a2⟩ := new_sub_words_of_lo_finite f1 f2 hwxh hwyh fsl
+  obtain ⟨a3, a4⟩ := new_sub_words_of_lo_finite f3 f4 hwxl hwyl ftl
+  simp only [← Int.sub_eq_add_neg]
+  exact ⟨a1, a2, a3, a4⟩
+
+end F64
+
+/-! ## 10. DWDivFP (`TwoFloat / f64`) with a normal quotient: the correction is bounded by the quotient -/
+
+namespace F64
+
+open TwoFloat
+
+theorem abs_rnI_le_two_mul (v : Int) : |rnI v| ≤ 2 * |v| := by
+  rw [abs_rnI, ← Int.natCast_natAbs v]
+  have := rn53_le_two_mul v.natAbs
+  exact_mod_cast this
+
+theorem abs_sub_rqI_mul (p : Int) {U : Nat} (hU : 0 < U) :
+    2 * |p + -(rqI p U) * (U : Int)| ≤ (U : Int) * 2 ^ (Nat.log2 (p.natAbs / U) - 52) := by
+  have h := roundQ_abs_err p.natAbs U hU
+  rw [← natAbs_sub_rqI_mul, Int.natCast_natAbs] at h
+  push_cast at h
+  exact h
+
+/-- magnitudes in DWDivFP when the quotient is not subnormal (`|x/y| ≥ 2^-1021`, i.e. `2^53 |y| ≤ |x| U`):
+`|dt + l| ≤ |x|`, hence the correction `tl = RN(d / y)` is at most `|th| = |RN(x / y)|` -/
+theorem dwdivfp_int {x y l : Int} {U : Nat} (hU : 0 < U) (hy : y ≠ 0) (hl : 2 ^ 53 * |l| ≤ |x|)
+    (hq : 2 ^ 53 * |y| ≤ |x| * (U : Int)) :
+    |rnI (rnI (x - rqI (rdI (x * (U : Int)) y * y) U)
+        - rqI (rdI (x * (U : Int)) y * y + -(rqI (rdI (x * (U : Int)) y * y) U) * (U : Int)) U) + l| ≤ |x| := by
+  have hUi : (0 : Int) < (U : Int) := Int.natCast_pos.2 hU
+  have hypos : 0 < |y| := abs_pos.2 hy
+  have hx1 : 1 ≤ |x| := by
+    by_contra hc
+    have : |x| = 0 := by have := abs_nonneg x; omega
+    rw [this, zero_mul] at hq; omega
+  -- the quotient
+  have hA : 2 ^ 53 * |rdI (x * (U : Int)) y * y - x * (U : Int)| ≤ |x| * (U : Int) := by
+    have h1 := rdI_err (x * (U : Int)) hy
+    have hq' : 2 ^ 52 * y.natAbs ≤ (x * (U : Int)).natAbs := by
+      have : ((2 ^ 52 * y.natAbs : Nat) : Int) ≤ (((x * (U : Int)).natAbs : Nat) : Int) := by
+        push_cast
+        rw [abs_mul, abs_of_pos hUi]; omega
+      exact_mod_cast this
+    have h2 := roundQ_exp_le (Int.natAbs_pos.2 hy) hq'
+    have h3 : (2 : Int) ^ 52 * (|y| * 2 ^ (Nat.log2 ((x * (U : Int)).natAbs / y.natAbs) - 52))
+        ≤ |x| * (U : Int) := by
+      have : ((2 ^ 52 * (y.natAbs * 2 ^ (Nat.log2 ((x * (U : Int)).natAbs / y.natAbs) - 52)) : Nat) : Int)
+          ≤ (((x * (U : Int)).natAbs : Nat) : Int) := by exact_mod_cast h2
+      push_cast at this
+      rwa [abs_mul, abs_of_pos hUi] at this
+    omega
+  generalize hth : rdI (x * (U : Int)) y = th at *
+  generalize hp : th * y = p at *
+  have hB := abs_sub_rqI_mul p hU
+  have hP : |p| ≤ |x| * (U : Int) + |p - x * (U : Int)| := by
+    have := abs_add_le (x * (U : Int)) (p - x * (U : Int))
+    rw [add_sub_cancel, abs_mul, abs_of_pos hUi] at this
+    exact this
+  have hpl : (rqI (p + -(rqI p U) * (U : Int)) U).natAbs = roundQ (p + -(rqI p U) * (U : Int)).natAbs U :=
+    natAbs_rqI _ _
+  generalize hph : rqI p U = ph at *
+  -- `U |x - ph| ≤ |x U - p| + |p - ph U|`
+  have hxp : (U : Int) * |x - ph| ≤ |p - x * (U : Int)| + |p + -ph * (U : Int)| := by
+    have e : (U : Int) * |x - ph| = |x * (U : Int) - ph * (U : Int)| := by
+      rw [← sub_mul, abs_mul, abs_of_pos hUi, mul_comm]
+    rw [e]
+    have := abs_add_le (-(p - x * (U : Int))) (p + -ph * (U : Int))
+    rw [abs_neg] at this
+    have e2 : -(p - x * (U : Int)) + (p + -ph * (U : Int)) = x * (U : Int) - ph * (U : Int) := by ring
+    rwa [e2] at this
+  have hdh := abs_rnI_le_two_mul (x - ph)
+  by_cases he1 : Nat.log2 (p.natAbs / U) - 52 = 0
+  · rw [he1, pow_zero, mul_one] at hB
+    have hD : 2 * (p + -ph * (U : Int)).natAbs ≤ U := by
+      have : ((2 * (p + -ph * (U : Int)).natAbs : Nat) : Int) ≤ (U : Int) := by
+        push_cast; exact hB
+      exact_mod_cast this
+    have hpl0 : rqI (p + -ph * (U : Int)) U = 0 := by
+      apply Int.natAbs_eq_zero.1
+      rw [hpl, roundQ_eq_zero_of_two_mul_le hU hD]
+    rw [hpl0, sub_zero, rnI_of_repI (repI_rnI _)]
+    have h1 : 2 ^ 54 * |x - ph| ≤ 2 * |x| + 2 ^ 53 := by
+      have : (U : Int) * (2 ^ 54 * |x - ph|) ≤ (U : Int) * (2 * |x| + 2 ^ 53) := by
+        have e : (U : Int) * (2 * |x| + 2 ^ 53) = 2 * (|x| * (U : Int)) + 2 ^ 53 * (U : Int) := by ring
+        have e' : (U : Int) * (2 ^ 54 * |x - ph|) = 2 ^ 54 * ((U : Int) * |x - ph|) := by ring
+        rw [e, e']; omega
+      exact le_of_mul_le_mul_left this hUi
+    have t := abs_add_le (rnI (x - ph)) l
+    omega
+  · have h53 := roundQ_exp_pos hU he1
+    have h52 : 2 ^ 52 * U ≤ p.natAbs := by omega
+    have hge := roundQ_exp_le hU h52
+    obtain ⟨e', he'⟩ : ∃ e', Nat.log2 (p.natAbs / U) - 52 = e' + 1 :=
+      ⟨Nat.log2 (p.natAbs / U) - 52 - 1, by omega⟩
+    rw [he'] at hB hge
+    have r1 : Rep (2 ^ e') := rep_two_pow e'
+    have hge' : (2 : Int) ^ 52 * ((U : Int) * (2 ^ e' * 2)) ≤ |p| := by
+      have : ((2 ^ 52 * (U * 2 ^ (e' + 1)) : Nat) : Int) ≤ ((p.natAbs : Nat) : Int) := by exact_mod_cast hge
+      push_cast at this
+      rw [pow_succ] at this
+      have e : (2 : Int) ^ 52 = 4503599627370496 := by norm_num
+      rw [e]; exact this
+    rw [pow_succ] at hB
+    have hD : (p + -ph * (U : Int)).natAbs ≤ 2 ^ e' * U := by
+      have : (((p + -ph * (U : Int)).natAbs : Nat) : Int) ≤ ((2 ^ e' * U : Nat) : Int) := by
+        push_cast
+        have e : (U : Int) * (2 ^ e' * 2) = 2 * (2 ^ e' * (U : Int)) := by ring
+        rw [e] at hB; omega
+      exact_mod_cast this
+    have hplT : |rqI (p + -ph * (U : Int)) U| ≤ 2 ^ e' := by
+      rw [← Int.natCast_natAbs, hpl]
+      have := roundQ_le_of_le hU r1 hD
+      exact_mod_cast this
+    have pT := two_pow_pos' e'
+    generalize (2 : Int) ^ e' = T at *
+    generalize rqI (p + -ph * (U : Int)) U = pl at *
+    -- cancel `U`
+    have hT : 2 ^ 53 * (2 ^ 53 * T) ≤ 2 ^ 53 * |x| + |x| := by
+      have : (U : Int) * (2 ^ 53 * (2 ^ 53 * T)) ≤ (U : Int) * (2 ^ 53 * |x| + |x|) := by
+        have e : (U : Int) * (2 ^ 53 * |x| + |x|) = 2 ^ 53 * (|x| * (U : Int)) + |x| * (U : Int) := by ring
+        have e' : (U : Int) * (2 ^ 53 * (2 ^ 53 * T)) = 2 ^ 53 * (2 ^ 52 * ((U : Int) * (T * 2))) := by ring
+        rw [e, e']; omega
+      exact le_of_mul_le_mul_left this hUi
+    have hxph : 2 ^ 53 * |x - ph| ≤ |x| + 2 ^ 53 * T := by
+      have : (U : Int) * (2 ^ 53 * |x - ph|) ≤ (U : Int) * (|x| + 2 ^ 53 * T) := by
+        have e : (U : Int) * (|x| + 2 ^ 53 * T) = |x| * (U : Int) + 2 ^ 53 * ((U : Int) * T) := by ring
+        have e' : (U : Int) * (2 ^ 53 * |x - ph|) = 2 ^ 53 * ((U : Int) * |x - ph|) := by ring
+        have e'' : (U : Int) * (T * 2) = 2 * ((U : Int) * T) := by ring
+        rw [e''] at hB
+        rw [e, e']; omega
+      exact le_of_mul_le_mul_left this hUi
+    have hdt := abs_rnI_le_two_mul (rnI (x - ph) - pl)
+    have t1 : |rnI (x - ph) - pl| ≤ |rnI (x - ph)| + |pl| := by
+      have := abs_add_le (rnI (x - ph)) (-pl)
+      rwa [abs_neg, ← Int.sub_eq_add_neg] at this
+    have t2 := abs_add_le (rnI (rnI (x - ph) - pl)) l
+    omega
+
+end F64
+
+namespace F64
+
+open TwoFloat
+
+theorem div_zero_not_finite {x y : F64} (hx : x.is_finite = true) (hy : y.is_finite = true)
+    (h0 : y.toInt = 0) : (F64.div x y).is_finite = false := by
+  obtain ⟨s, a, rfl⟩ := is_finite_iff.mp hx
+  obtain ⟨t, b, rfl⟩ := is_finite_iff.mp hy
+  have hb : b = 0 := TwoFloat.toInt_eq_zero_iff.1 h0
+  subst hb
+  simp only [div]
+  split_ifs <;> rfl
+
+theorem div_spec_of_finite {x y : F64} (hx : x.is_finite = true) (hy : y.is_finite = true)
+    (hy0 : y.toInt ≠ 0) (h : (F64.div x y).is_finite = true) :
+    (F64.div x y).toInt = rdI (x.toInt * (unit : Int)) y.toInt := by
+  by_cases hr : roundQ (x.toInt * (unit : Int)).natAbs y.toInt.natAbs ≤ maxFin
+  · exact (div_spec hx hy hy0 hr).2
+  · exfalso
+    obtain ⟨s, a, rfl⟩ := is_finite_iff.mp hx
+    obtain ⟨t, b, rfl⟩ := is_finite_iff.mp hy
+    have hb : b ≠ 0 := fun hb => hy0 (by rw [hb]; exact toInt_zero t)
+    have hn : ((fin s a).toInt * (unit : Int)).natAbs = a * unit := by
+      rw [Int.natAbs_mul, natAbs_toInt_fin, Int.natAbs_natCast]
+    rw [hn, natAbs_toInt_fin] at hr
+    simp only [div] at h
+    rw [if_neg hb] at h
+    by_cases ha : a = 0
+    · subst ha
+      rw [Nat.zero_mul] at hr
+      have : roundQ 0 b = 0 := roundQ_eq_zero_of_two_mul_le (by omega) (by omega)
+      omega
+    · rw [if_neg ha] at h
+      have hp : pack (s != t) (roundQ (a * unit) b) = inf (s != t) := pack_inf (Nat.lt_of_not_le hr)
+      change (pack (s != t) (roundQ (a * unit) b)).is_finite = true at h
+      rw [hp] at h
+      exact absurd h (by simp [is_finite])
+
+theorem natAbs_div_spec {x y : F64} (hx : x.is_finite = true) (hy : y.is_finite = true)
+    (hy0 : y.toInt ≠ 0) (h : (F64.div x y).is_finite = true) :
+    (F64.div x y).toInt.natAbs = roundQ (x.toInt.natAbs * unit) y.toInt.natAbs := by
+  rw [div_spec_of_finite hx hy hy0 h, natAbs_rdI' _ hy0, Int.natAbs_mul, Int.natAbs_natCast]
+
+/-- core of `TwoFloat / f64` (DWDivFP) when the first quotient is not subnormal: `2^53 |y| ≤ |x| · 2^1074`,
+i.e. `|x / y| ≥ 2^-1021`.  (`y` may be anything else: zero, infinite, NaN, tiny, huge.) -/
+theorem dw_div_core_inv {x y l : F64} (hwx : x.WF)
+    (hl : 2 * |l.toInt| ≤ 2 ^ (Nat.log2 x.toInt.natAbs - 52))
+    (hq : 2 ^ 53 * |y.toInt| ≤ |x.toInt| * (unit : Int)) :
+    (arithmetic.fast_two_sum (F64.div x y)
+      (F64.div (F64.add (F64.sub (F64.sub x (TwoFloat.new_mul (F64.div x y) y).hi)
+        (TwoFloat.new_mul (F64.div x y) y).lo) l) y)).Inv := by
+  rw [new_mul_eq]
+  simp only
+  by_cases htl : (F64.div (F64.add (F64.sub (F64.sub x (F64.mul (F64.div x y) y))
+      (F64.fma (F64.div x y) y (F64.neg (F64.mul (F64.div x y) y)))) l) y).is_finite = true
+  · have fd := is_finite_of_div htl
+    obtain ⟨fdt, fl⟩ := is_finite_of_add fd
+    obtain ⟨fdh, fpl⟩ := is_finite_of_sub fdt
+    obtain ⟨fx, fph⟩ := is_finite_of_sub fdh
+    obtain ⟨fth, fy⟩ := is_finite_of_mul fph
+    have hy0 : y.toInt ≠ 0 := by
+      intro h0
+      rw [div_zero_not_finite fx fy h0] at fth
+      exact absurd fth (by simp)
+    have vth := div_spec_of_finite fx fy hy0 fth
+    have vph := mul_spec_of_finite fph
+    have vpl := fma_spec_of_finite fpl
+    rw [toInt_neg, vph, vth] at vpl
+    rw [vth] at vph
+    have vdh := ((IsVal.of_finite fx).sub_of_finite (IsVal.of_finite fph) fdh).2
+    rw [vph] at vdh
+    have vdt := ((IsVal.of_finite fdh).sub_of_finite (IsVal.of_finite fpl) fdt).2
+    rw [vdh, vpl] at vdt
+    have vd := ((IsVal.of_finite fdt).add_of_finite (IsVal.of_finite fl) fd).2
+    rw [vdt] at vd
+    have hl' : 2 ^ 53 * |l.toInt| ≤ |x.toInt| := by
+      have := two_pow_mul_le_of_half_ulp hl
+      rw [← Int.natCast_natAbs, ← Int.natCast_natAbs]
+      exact_mod_cast this
+    have key := dwdivfp_int unit_pos hy0 hl' hq
+    have hd : |(F64.add (F64.sub (F64.sub x (F64.mul (F64.div x y) y))
+        (F64.fma (F64.div x y) y (F64.neg (F64.mul (F64.div x y) y)))) l).toInt| ≤ |x.toInt| := by
+      rw [vd]; exact abs_rnI_le hwx.repI key
+    have aT := natAbs_div_spec fd fy hy0 htl
+    have aC := natAbs_div_spec fx fy hy0 fth
+    refine fast_two_sum_inv (div_WF _ _) (div_WF _ _) (Or.inr ?_)
+    rw [← Int.natCast_natAbs, ← Int.natCast_natAbs, aT, aC]
+    have hd' := natAbs_le_of_abs_le (v := (F64.add (F64.sub (F64.sub x (F64.mul (F64.div x y) y))
+        (F64.fma (F64.div x y) y (F64.neg (F64.mul (F64.div x y) y)))) l).toInt)
+      (m := x.toInt.natAbs) (by rw [Int.natCast_natAbs]; exact hd)
+    have := roundQ_mono y.toInt.natAbs (Int.natAbs_pos.2 hy0) (Nat.mul_le_mul_right unit hd')
+    exact_mod_cast this
+  · exact Inv.of_not_finite (fast_two_sum_hi_not_finite (Or.inr (is_finite_eq_false_iff.2 htl)))
+
+end F64
+
+/-! ## 11. 2Prod up to the overflow threshold -/
+
+namespace F64
+
+open TwoFloat
+
+/-- 2Prod, word level, without an upper bound on the product: exact product at least `2^-960` in magnitude and a
+finite rounded product (no overflow) -/
+theorem new_mul_words_of_hi_finite {a b : F64} (hwa : a.WF) (hwb : b.WF)
+    (hlo : (2 : Int) ^ 1188 ≤ |a.toInt * b.toInt|) (hf : (F64.mul a b).is_finite = true) :
+    ∃ Q : Int, a.toInt * b.toInt = Q * (unit : Int) ∧
+      IsVal (TwoFloat.new_mul a b).hi (rnI Q) ∧ IsVal (TwoFloat.new_mul a b).lo (Q - rnI Q) := by
+  obtain ⟨ha, hb⟩ := is_finite_of_mul hf
+  have hN : (a.toInt * b.toInt).natAbs = a.toInt.natAbs * b.toInt.natAbs := Int.natAbs_mul _ _
+  have hlo' : 2 ^ 1188 ≤ a.toInt.natAbs * b.toInt.natAbs := by
+    rw [← hN]; rw [← Int.natCast_natAbs] at hlo; exact_mod_cast hlo
+  obtain ⟨Q0, k, hQ0, hd, hlt⟩ :=
+    mul_quot_exists (U := 1074) (L := 1188) hwa.repI hwb.repI (by norm_num) hlo'
+  have hP0 : a.toInt * b.toInt ≠ 0 := by
+    intro h0
+    rw [h0, abs_zero] at hlo
+    have : (0 : Int) < 2 ^ 1188 := by positivity
+    omega
+  have hQ : a.toInt * b.toInt = (Int.sign (a.toInt * b.toInt) * (Q0 : Int)) * (unit : Int) := by
+    rw [← unit_eq] at hQ0
+    conv_lhs => rw [← Int.sign_mul_natAbs (a.toInt * b.toInt), hN, hQ0]
+    push_cast; ring
+  have hQabs : (Int.sign (a.toInt * b.toInt) * (Q0 : Int)).natAbs = Q0 := by
+    rw [Int.natAbs_mul, Int.natAbs_sign_of_ne_zero hP0, Nat.one_mul, Int.natAbs_natCast]
+  refine ⟨_, hQ, new_mul_words_of ha hb hQ ?_ ?_⟩
+  · rw [hQabs]
+    obtain ⟨zs, e⟩ := mul_eq ha hb
+    rw [e] at hf
+    have := roundSigned_finite hf
+    rw [hN, hQ0, ← unit_eq, roundQ_mul_right_eq_rn53 _ _ unit_pos] at this
+    exact this
+  · apply repI_sub_rnI_of_dvd (k := k)
+    · rw [hQabs]; exact hd
+    · rw [hQabs]; exact hlt
+
+theorem new_mul_valid_of_hi_finite {a b : F64} (hwa : a.WF) (hwb : b.WF)
+    (hlo : (2 : Int) ^ 1188 ≤ |a.toInt * b.toInt|) (hf : (F64.mul a b).is_finite = true) :
+    (TwoFloat.new_mul a b).V * (unit : Int) = a.toInt * b.toInt ∧
+    (TwoFloat.new_mul a b).Valid ∧ (TwoFloat.new_mul a b).WF := by
+  obtain ⟨Q, hQ, hh, hl⟩ := new_mul_words_of_hi_finite hwa hwb hlo hf
+  obtain ⟨_, p2, p3, p4⟩ := eft_package hh hl (new_mul_WF a b).1 (new_mul_WF a b).2
+  exact ⟨by rw [p2, hQ], p3, p4⟩
 
 end F64
